@@ -568,7 +568,7 @@ def main():
     if run.want('energy'):
         for nn in (2, 3):          # (n = 4 was tried in the thorough tier: the solver does not decide it within 60 s; stated, not claimed)
             for route in ('sparse', 'dense'):
-                st = sx.explore(fixedpoint_energy_harness(cy, ns, nn, route), timeout_ms=60000)
+                st = sx.explore(fixedpoint_energy_harness(cy, ns, nn, route), timeout_ms=60000, lin_relax=True)
                 run.absorb(st, 'energy-step', bound={'n': nn, 'route': route}, sample={'obligation': 'energy / fixed point of a row update', 'n': nn})
                 for cex in st.cex:
                     run.report('gauss_seidel:energy:%s' % route, '%s (n=%d, %s): %s' % (cex['name'], nn, route, jsonable(sx.model_dict(cex['model']))), {'kind': 'energy'}, True)
